@@ -420,3 +420,25 @@ pub fn aes_rng_fill_seq(seed: [u8; 16], lens: &[usize]) -> Vec<Vec<u8>> {
         })
         .collect()
 }
+
+/// Encrypts one garbled row with plain-typed arguments and decrypts it again: returns the length
+/// of the ciphertext and the decrypted triple (the row length must not depend on the values).
+#[allow(clippy::too_many_arguments, clippy::type_complexity)]
+pub fn garble_row_roundtrip(
+    label_x: u128,
+    label_y: u128,
+    w: usize,
+    row: u8,
+    bit: bool,
+    macs: &[u128],
+    label: u128,
+) -> Result<(usize, bool, Vec<u128>, u128), String> {
+    use crate::mpc::data_types::{Label, Mac};
+    use crate::mpc::garble::{GarblingKey, decrypt, encrypt};
+    let triple = (bit, macs.iter().map(|m| Mac(*m)).collect(), Label(label));
+    let key = GarblingKey::new(Label(label_x), Label(label_y), w, row);
+    let ct = encrypt(&key, triple).map_err(|e| format!("{e:?}"))?;
+    let key = GarblingKey::new(Label(label_x), Label(label_y), w, row);
+    let (b, m, l) = decrypt(&key, &ct).map_err(|e| format!("{e:?}"))?;
+    Ok((ct.len(), b, m.iter().map(|m| m.0).collect(), l.0))
+}
